@@ -13,6 +13,7 @@ let () =
        | "ros1msg" -> Mros.run_ros1msg (List.tl c)
        | "bag" -> Mbag.run_bag (List.tl c)
        | "db3" -> Mdb3.run_db3 (List.tl c)
+       | "schemas" -> Mschema.run_schemas (List.tl c)
        | "pyread" -> Mpy.run_pyread (List.tl c)
        | "pywrite" -> Mpy.run_pywrite (List.tl c)
        | _ -> failwith "unknown mode");
